@@ -20,7 +20,7 @@ import (
 func CheckC10(run *evid.Run) {
 	total := pick(run.Tier, 300, 4000)
 	run.Rule = "seeded stored logs (forked DAGs with skip references, pointer counts up to 64) x four loaders (manifest, JSON head list, k supplied entries, single entry hash - heads and arbitrary entries) x limits n in 0..size+2 (a seeded third of them in quick) x concurrency {1,2,8,32} x gated release policy; count must be min(max(n,k),size) with size = closure of the start set over next+refs, no duplicates, all supplied entries present, no omitted entry strictly more recent (time, clock id) than a returned non-supplied one, and - when clocks are distinct - two runs that differ only in concurrency / arrival order must return the same set. Non-trivial = forked log (>=2 heads seen) with 0 < n < size; distinct = (shape digest, loader, n class, policy)"
-	runCases(run, "C10", total, run.Tier == "thorough", true, ChildOpts{})
+	runCases(run, "C10", total, true, run.Tier == "thorough", ChildOpts{})
 }
 
 func init() { registerCases("C10", c10Case) }
